@@ -285,6 +285,26 @@ CLAIMED["C02"] = (
     "dependency cones, index-agreement lint, bounded abstract evaluation of routing hooks over opaque tokens and of the layout map over symbolic monomials (static analysis)",
     "DESIGN.md section 5, C02",
 )
+# clauses added in round 7 (DESIGN.md section 10.15), appended to the level texts above
+ROUND7_ALL = (" Round-7 clause (all properties): in every analysed function a table that hands an earlier result to a later loop iteration or call is keyed by "
+              "everything the result was computed from (Cxx.cache-keys; consistency checks that only compare a hit are left alone).")
+ROUND7 = {
+    "C06": " Round-7 clause: the loop-level pattern changes the state a loop yields only if the loop's state result is unused or the state is restored behind the loop (F-49, known finding).",
+    "C07": " Round-7 clause: re-weaving a loop sets the yield operand of every state block argument, created or already there, to the end-of-body state (F-50, fixed).",
+    "C08": " Round-7 clauses: the op verifier measures the stride pattern as written, the object the value generator indexes per hardware dimension; a kernel loop count is read through pattern methods and a product over a filtered subset of the bounds is rejected.",
+    "C10": " Round-7 clause: every verdict of self_overlaps is computed from all_values(); a closed-form overlap test is an analysis error (fails closed), never a pass.",
+    "C12": " Round-7 clauses: a constant / global / alloc is re-typed only if every user is a cast (F-48, fixed); the layout built for a re-laid-out global keeps the offset of the target layout the rebuilt subview is typed with; the read/write classification of a use may live in a module helper and is judged on its return sites.",
+    "C14": " Round-7 clauses: the move loop may drain the pending list from the front (pop(0)), draining from the back reverses the group; every SupportedKernel is built with a re-iterable sequence (no one-shot iterator); dispatch_to_compute declines an xDMA region only if some extension provides its kernel (F-51, fixed).",
+    "C15": " Round-7 clause: ConstructPipeline redirects no value to a result of the index op it builds (the 'defined by the index op => safe' shortcut of PipelineDuplicateBuffers has that pass as its only producer).",
+    "C17": " Round-7 clause: the new trip count is computed in integer arithmetic (no float quotient).",
+    "C18": " Round-7 clause: an order-free comparison of the two bodies (multisets / sorted lists of op types) is rejected.",
+    "C19": " Round-7 clause: AffineTransform.compose builds (self.A @ other.A, self.A @ other.b + self.b); a shortcut returning one operand unchanged reads the matrix AND the translation of the operand it drops.",
+    "C20": " Round-7 clause: valid_mapping pairs operands by position (strict zip) and rejects a position whenever its source differs from the followed abstract operand (no per-position membership test).",
+}
+for _pid in list(CLAIMED):
+    _t, _n, _tech, _ref = CLAIMED[_pid]
+    CLAIMED[_pid] = (_t + ROUND7.get(_pid, "") + ROUND7_ALL, _n, _tech, _ref)
+
 NOT_APPLICABLE = {
 }
 NOT_BUILT = "check under construction in this session (designed in DESIGN.md section 5); not claimed until its rules run silently on the unchanged tree"
